@@ -9,17 +9,25 @@ def wait_nontrivial(tok, res):
         return res.startswith("f=")
     if tok[0] in ("wdwait", "cwwait"):
         return res not in ("unknown",) and not res.startswith("infra")
+    if tok[0] == "wdstart":
+        return "/" in tok[4]            # a scenario with a registration (held or not)
+    if tok[0] == "cwstart":
+        return "@" in tok[5]            # a scenario with configuration reloads
     return False
 
 
 def wait_class(r):
     if r in ("ok", "-", "started", "unknown", "nomgr", "hang"):
         return r
-    if r.startswith("closed") or r.startswith("open"):
-        return r.split(" ", 1)[0]
+    if r.startswith("closed") or r.startswith("open") or r.startswith("cut"):
+        k = r.split(" ", 1)[0]
+        px = r.rsplit("px=", 1)[-1] if "px=" in r else "-"
+        if px != "-":
+            k += "+reg" + ("" if all(e.endswith(":ok") for e in px.split(",")) else "-HELD")
+        return k
     if r.startswith("f="):
         return "loop"
-    if r[:2] in ("p:", "r:", "b:"):
+    if r[:2] in ("p:", "r:", "b:", "c:"):
         return "relogin"
     return "delay" if r[:1].isdigit() else r[:10]
 
@@ -32,11 +40,19 @@ _T = ["lowB_pos", "step_lo_ge", "step_lo_le_hi", "step_hi_le", "slow_le_max", "s
       "run_closed", "close_sound", "alive_of_fed", "detect", "invalid_ping_ignored", "bad_pong_closes",
       "disabled_never_times_out", "detectHolds_sound", "model_detectHolds", "defaults",
       "server_enabled_iff", "client_enabled_iff",
-      "innerOpts_facts", "RInv_init", "relogin_wait", "outer_started_stays", "login_registers"]
+      "innerOpts_facts", "RInv_init", "relogin_wait", "outer_started_stays",
+      # Part D: end of a server session (Frp/Model/SessEnd.lean)
+      "sinv_init", "sinv_step", "sinv_run", "teardown_releases", "released_forever", "async_leak_witness",
+      "teardown_reached", "teardown_reached_run",
+      # Part E: which configuration a (re-)login registers (Frp/Model/Rereg.lean + C19's Reconcile)
+      "updateAll_synced", "healed_init", "healed_step", "healed_run", "login_sends_all", "model_regHolds",
+      "regHolds_sensitive", "reload_in_window_witness", "early_snapshot_witness",
+      # ties to the source (Frp/Gen/SessFacts.lean, regenerated on every run)
+      "code_handlers_plain", "teardown_releases_code", "code_snapshot_at_login", "healed_run_code"]
 
 PROP = {
         "level": "proof",
-        "gens": [],
+        "gens": ["SessFacts"],
         "theorems": ["Frp.C14." + t for t in _T],
         "engines": [
             {"name": "wait", "quick_n": 5000, "thorough_n": 16000, "thorough_seeds": 4,
@@ -46,12 +62,23 @@ PROP = {
         "rule": "wait engine: real wait.NewFastBackoffManager(...).Backoff on generated option sets and success/error "
                 "sequences (real sleeps cross the fast-retry window), real wait.BackoffUntil with a recording manager, "
                 "real frps (server.NewService) with 1-2 s heartbeat timeout against a scripted raw client (valid / wrong-key "
-                "pings, silence), real frpc (client.NewService) against a scripted raw server (silent server, pong with "
-                "error, refused logins); non-trivial = a delay returned after an error, a BackoffUntil run, a finished "
-                "watchdog / re-login scenario; distinct = distinct (op line, result) pairs",
+                "pings, NewProxy registrations held at the server plugin or at the gates reg.checked / reg.ran / reg.added, "
+                "silence or a cut before / while / after a registration is in flight; afterwards a fresh session must be "
+                "able to register the same names and ports), real frpc (client.NewService with a proxy set) against a "
+                "scripted raw server (silent server, pong with error, refused logins, cut connections, configuration "
+                "reloads through Service.UpdateAllConfigurer while connected and during outages; the NewProxy / CloseProxy "
+                "messages seen on every connection must add up to the configured set); non-trivial = a delay returned "
+                "after an error, a BackoffUntil run, a finished watchdog / re-login scenario, a scenario with "
+                "registrations or reloads; distinct = distinct (op line, result) pairs; harness/corpus/wait holds op "
+                "sequences the generator found against seeded defects",
         "trusted": COMMON_TRUST + [
-            "models Frp/Model/Backoff.lean, Watchdog.lean, Reconnect.lean written by hand; tied by the wait engine "
-            "(relational: every observed delay / closure time must lie in the model's interval)",
+            "models Frp/Model/Backoff.lean, Watchdog.lean, Reconnect.lean, SessEnd.lean, Rereg.lean written by hand; tied by "
+            "the wait engine (relational: every observed delay / closure time must lie in the model's interval; "
+            "registrations seen / re-registrations accepted must equal the model's)",
+            "the parameters `async` (SessEnd) and `early` (Rereg) are read from the source by translate/gen_sessfacts.go "
+            "(registerMsgHandlers, Dispatcher.readLoop, AsyncHandler, worker(), loopLoginUntilSuccess) on every run",
+            "Rereg uses C19's Reconcile.updateAll and its theorems update_names / update_running_cfgs / update_new_count",
+            "existing /repo gates reg.checked / reg.ran / reg.added (build tag verif) are used to hold a registration",
             "float64 arithmetic of Backoff/Jitter is modelled with rationals; the generator uses dyadic factors "
             "(exact in float64) plus the factors frp itself uses (2, 0.1, 0.5)",
         ],
@@ -61,24 +88,31 @@ PROP = {
             "time.Now and the scheduler deliver those delays within the 0.4 s slack is only observed on the sampled runs",
             "the constant in 'timeout plus a small constant' is the checker period P (1 s) plus scheduling slack; "
             "the theorem is parametric in P",
-            "release of *all* resources of a torn-down session is C10's subject; here only the closing of the control "
-            "connection is modelled and observed",
+            "'all resources released' is modelled and observed for the session's proxies (remote ports, proxy names): "
+            "after the session ended a fresh session registers the same names/ports; the other tables are C10's subject",
+            "the session-end model abstracts a remote port to the proxy name and other sessions / the OS to an `extFail` "
+            "input; server plugins and gates only delay a registration, they never reject it in the generated scenarios",
+            "a held registration is the last thing the scripted peer sends: pings queued behind a blocked read loop are "
+            "answered late by frps (the handler runs inside the read loop), which the watchdog model does not describe",
             "option sets outside WF (Factor < 1, zero Duration, zero FastRetryDelay) are generated (malformed stream) "
             "and compared with the model, but the lower-bound clause is not claimed for them",
             "with MaxDuration = 0 (no frp call site does this) the delay grows without bound and overflows int64 after "
             "~30 doublings; delays above 2^53 ns are outside the model's domain and skipped (counted)",
             "negative durations / options are outside the model's domain (Nat) and never generated",
             "clock reads at the fast-retry cutoff boundary (+-1 ms) accept both outcomes of now.After(cutoff)",
-            "re-registration of all proxies after re-login is by construction in the model (loginFunc calls "
-            "ctl.Run(proxyCfgs, visitorCfgs)); the reconcile logic itself is C19's subject",
+            "re-registration: theorem healed_run assumes no reload falls between `ctl.Run(snapshot)` and `svr.ctl = ctl` of "
+            "one loginFunc call (two adjacent statements); reload_in_window_witness shows the stale control if one does "
+            "(finding candidate, microsecond window, not reproduced on the real code); the engine never schedules it",
+            "visitors follow the same two calls (vm.UpdateAll) but only proxies are observed on the wire",
         ],
     }
 
 META = {
         "engine": "lean+harness(wait)",
         "design_ref": "DESIGN.md §6 C14",
-        "technique": "Lean 4 proofs by induction over all call / event histories of the back-off manager and the "
-                     "heartbeat watchdog models; relational differential correspondence with the real "
+        "technique": "Lean 4 proofs by induction over all call / event histories of the back-off manager, the heartbeat "
+                     "watchdog, the server session-end (small-step, all interleavings) and the client re-registration "
+                     "models; go/ast extraction of two structural facts; relational differential correspondence with the real "
                      "wait.fastBackoffImpl, wait.BackoffUntil, server.Control and client.Control/Service on loopback",
         "text": "Proof (partial): for every option set with Duration > 0, Factor = 0 or >= 1 and positive fast-retry delay, "
                 "every success/error history, every clock and every jitter draw, each delay the reconnect back-off hands "
@@ -88,9 +122,15 @@ META = {
                 "strictly more than the timeout of silence since the last valid heartbeat, closes at the first check after "
                 "it (within timeout + checker period), never closes while valid heartbeats arrive at spacing <= timeout, "
                 "ignores invalid pings, closes on a pong carrying an error, and is off when the timeout (or the client "
-                "interval) is <= 0 (the default with tcpMux). Kernel-checked, axioms propext/Classical.choice/Quot.sound "
-                "only. Tied to the code by ~4k (quick) generated operations per run on the real functions, including real "
-                "frps/frpc watchdog and re-login scenarios with 1-3 s timeouts.",
+                "interval) is <= 0 (the default with tcpMux); for every interleaving of peer, read loop, NewProxy handler, "
+                "watchdog and worker() a torn-down server session holds no remote port and no proxy name, registrations in "
+                "flight at the end of the connection included, and the teardown is reached in <= 6 own steps once the "
+                "connection ended; for every history of reloads, connection losses, refused and successful logins a live "
+                "client control runs exactly the stored configuration and a login announces every configured proxy once. "
+                "Kernel-checked, axioms propext/Classical.choice/Quot.sound only. Tied to the code by a go/ast extraction of "
+                "the handler registration mode and the snapshot point, and by ~5k (quick) generated operations per run on "
+                "the real functions, including real frps/frpc watchdog, registration-in-flight, re-login and reload-during-"
+                "outage scenarios with 1-3 s timeouts.",
         "note": "Partial: timers, the scheduler and the network are sampled, not proved. The code allows up to "
                 "2*FastRetryCount fast retries per window (5 in the first minute with frpc's options), not FastRetryCount as "
                 "the comment in client/service.go says (fast_per_window_count_witness); this does not break the property.",
